@@ -3,6 +3,7 @@ import CbiVerif.Lemmas.EvalFlags
 import CbiVerif.Lemmas.LexLayout
 import CbiVerif.Model.ExpandPP
 import CbiVerif.Model.EvalText
+import CbiVerif.Model.CondFragment
 /-!
 # C02 — from the TEXT of an `#if` expression to its ISO C truth value
 
@@ -21,7 +22,8 @@ import CbiVerif.Model.EvalText
    `defined` operator (that operator is replaced by the macro expander, not by the evaluator), and every admissible layout
    of its source tokens: lexer model then evaluator model give the ISO C truth value.  `text_cond_partial` adds the macro
    expander the end-to-end models run in between (`PP.condValue`), for every object-like macro table that defines none of
-   the identifiers of the expression.
+   the identifiers of the expression; `Props/C02Defined.lean` removes both restrictions (`defined` anywhere, identifiers
+   that are object-like macros).
 
 Lemmas: `Lemmas/EvalFlags.lean`, `Lemmas/LexLayout.lean`.
 -/
@@ -151,10 +153,19 @@ theorem render_eq_renderSrc (env : Env) (a : CExpr.Ast) (h : noDefined a = true)
 
 /-- the full statement at the level of the text: for every well-formed parse tree (with `defined`, with D8 constants), every
     macro table that defines none of its identifiers, every admissible layout — lexer, expander and evaluator give the C
-    truth value.  (`PP.condValue` is what the end-to-end models of C01/C04/C08/C10/C17/C18 execute.) -/
+    truth value.  (`PP.condValue` is what the end-to-end models of C01/C04/C08/C10/C17/C18 execute.)
+    State: proved outside D8 (`cond_defined_partial`, `Props/C02Defined.lean`, which also lets the operand of `defined` be a
+    macro name; `cond_objmacro_partial` adds identifiers that ARE object-like macros, for object-like tables).
+    Open: D8 only (`main_refuted`): `text_main_outside_D8_partial` (`Props/C02Defined.lean`) proves the statement for EVERY
+    table — function-like macros, `defined` in replacement lists, any size — because an expression none of whose identifiers
+    names a macro never makes the expander consult the table except through `defined`.
+    (The side condition "no identifier LEAF is spelled `defined`" was added when that theorem was proved: the lone word
+    `defined` is not a C expression, the expander rejects it, while the tree `.ident "defined"` has the C value 0 —
+    `text_main_needs_no_defined_leaf`.) -/
 def text_main : Prop :=
   ∀ (tbl : Table) (a : CExpr.Ast) (v : CExpr.Val) (w : Layout), a.grammatical = true → a.constsOK = true →
-    LexSource.lexable a = true → (∀ t ∈ renderSrc a, t.kind = .ident → t.text ≠ "defined" → tbl.get t.text = none) →
+    LexSource.lexable a = true → (∀ n ∈ CbiVerif.CondFrag.identLeaves a, n ≠ "defined") →
+    (∀ t ∈ renderSrc a, t.kind = .ident → t.text ≠ "defined" → tbl.get t.text = none) →
     cEval (fun n => (tbl.get n).isSome) a = some v → admissible w (renderSrc a) = true →
     condValue tbl (tokenize (layout w (renderSrc a))) = .ok v.truth
 
@@ -163,8 +174,10 @@ def text_main : Prop :=
     whose leaves are single lexer tokens and which contains no `defined` operator, and for EVERY admissible white-space layout
     `w` of its source tokens: lexing the TEXT with the lexer model and evaluating the tokens with the evaluator model gives
     the ISO C truth value of `a`.
-    Missing for `text_main`: the macro expander between lexer and evaluator for trees with `defined` and for function-like
-    tables (`text_cond_partial` covers object-like tables), and the class D8. -/
+    Missing for `text_main`: the macro expander between lexer and evaluator (`text_cond_partial` adds it for object-like
+    tables and `defined`-free trees; `cond_defined_partial` / `cond_objmacro_partial` in `Props/C02Defined.lean` close the
+    `defined` operator — in any position, operand any identifier, macro names included — and identifiers that ARE object-like
+    macros); still open: the class D8 (and, for identifiers that are macros, function-like tables). -/
 theorem text_main_partial (env : Env) (a : CExpr.Ast) (v : CExpr.Val) (w : Layout)
     (hg : a.grammatical = true) (hc : a.constsOK = true) (hk8 : usesBigUnsuffixed a = false)
     (hv : cEval env a = some v) (hl : LexSource.lexable a = true) (hd : noDefined a = true)
